@@ -107,3 +107,46 @@ pub fn golomb_case(case: &Value, _mode: &str, rep: &mut Report) {
     });
     match r { Ok((out, checks)) => { rep.checks += checks; rep.class(case["k"].as_str().unwrap()); for d in out { rep.mismatch(case, d); } } Err(m) => rep.mismatch(case, format!("panic: {}", m)) }
 }
+
+/// impl -> spec: codebooks of large alphabets (code words longer than 64 bits) recorded for TraceHuffman.tla
+pub fn drive_huffman(seed: u64, out: &str) -> Report {
+    use rand::{Rng, SeedableRng};
+    use std::io::Write;
+    let mut rng = rand_xoshiro::Xoshiro256StarStar::seed_from_u64(seed ^ 0x4aff);
+    let mut rep = Report::default();
+    let mut f = std::io::BufWriter::new(std::fs::File::create(out).unwrap());
+    let fib = |n: usize| -> Vec<u64> { let mut v = vec![1u64, 1]; while v.len() < n { let l = v.len(); v.push(v[l - 1] + v[l - 2]); } v.truncate(n); v };
+    let mut tables: Vec<(String, Vec<u64>, Option<Vec<f64>>)> = vec![];
+    for n in [66usize, 70, 90] { tables.push((format!("fibonacci u64 n={}", n), fib(n), None)); let mut r = fib(n); r.reverse(); tables.push((format!("reversed fibonacci u64 n={}", n), r, None)); }
+    tables.push(("geometric f64 n=80".into(), vec![], Some((0..80).map(|i| 2f64.powi(i)).collect())));
+    tables.push(("geometric f64 decreasing n=75".into(), vec![], Some((0..75).map(|i| 2f64.powi(-i)).collect())));
+    for k in 0..6 { let n = rng.gen_range(2..40usize); tables.push((format!("random with ties and zeros #{} n={}", k, n), (0..n).map(|_| rng.gen_range(0..4u64)).collect(), None)); }
+    for (name, w, wf) in tables {
+        set_thread_case(rep.cases as usize, &serde_json::json!({"k": "drive_huffman", "name": name}).to_string());
+        let r = guarded(|| {
+            let (enc, dec) = match &wf { Some(x) => (EncoderHuffmanTree::from_float_probabilities::<f64, _>(x).unwrap(), DecoderHuffmanTree::from_float_probabilities::<f64, _>(x).unwrap()), None => (EncoderHuffmanTree::from_probabilities::<u64, _>(&w), DecoderHuffmanTree::from_probabilities::<u64, _>(&w)) };
+            let n = enc.num_symbols();
+            let prefix: Vec<Vec<bool>> = (0..n).map(|s| prefix(&enc, s).unwrap()).collect();
+            let sfx: Vec<Vec<bool>> = (0..n).map(|s| suffix(&enc, s).unwrap()).collect();
+            let decoded: Vec<i64> = prefix.iter().map(|cw| decode(&dec, cw).map(|(s, used)| if used == cw.len() { s as i64 } else { -2 }).unwrap_or(-1)).collect();
+            let syms: Vec<usize> = (0..n).chain((0..n).rev()).collect();
+            let mut q = QueueEncoder::<u32, Vec<u32>>::new(); let mut st = StackCoder::<u32, Vec<u32>>::new();
+            for s in &syms { WriteBitStream::<Queue>::encode_symbol(&mut q, *s, &enc).unwrap(); }
+            st.encode_symbols_reverse(syms.iter().map(|s| (*s, &enc))).unwrap();
+            let mut qd = q.into_decoder().unwrap();
+            let gq: Vec<usize> = syms.iter().map(|_| ReadBitStream::<Queue>::decode_symbol(&mut qd, &dec).unwrap_or(usize::MAX)).collect();
+            let gs: Vec<usize> = syms.iter().map(|_| ReadBitStream::<Stack>::decode_symbol(&mut st, &dec).unwrap_or(usize::MAX)).collect();
+            let rejects = [n, n + 1, 2 * n, usize::MAX].iter().all(|s| prefix_err(&enc, *s));
+            (n, prefix, sfx, decoded, gq == syms, gs == syms, rejects)
+        });
+        fn prefix_err(e: &EncoderHuffmanTree, s: usize) -> bool { prefix(e, s).is_err() }
+        let b2 = |v: &Vec<Vec<bool>>| -> Vec<Vec<u8>> { v.iter().map(|c| c.iter().map(|b| *b as u8).collect()).collect() };
+        let rec = match r {
+            Ok((n, p, s, d, qr, sr, rj)) => { if p.iter().any(|c| c.len() > 64) { rep.class("codeword_longer_than_64_bits"); } serde_json::json!({"name": name, "n": n, "prefix": b2(&p), "suffix": b2(&s), "decoded": d, "queue_roundtrip": qr, "stack_roundtrip": sr, "rejects_outside": rj, "panic": ""}) }
+            Err(m) => serde_json::json!({"name": name, "n": 0, "prefix": [], "suffix": [], "decoded": [], "queue_roundtrip": false, "stack_roundtrip": false, "rejects_outside": false, "panic": m}),
+        };
+        writeln!(f, "{}", rec).unwrap(); rep.cases += 1;
+    }
+    rep.checks = rep.cases;
+    rep
+}
